@@ -80,7 +80,14 @@ func vStoreEntry(s *raftstore.LevelDBStore, idx uint64, unixNano int64) {
 	verifAssume(s.StoreLogProto(l) == nil)
 }
 
-func verifHarness_C02_snapshot() {
+func verifHarness_C02_snapshot() { vSnapshotScenario(false) }
+
+// C07 (snapshot in between): entries already marked as message of death are
+// folded into the compacted state like every other entry (their only effect,
+// advancing the duplicate-detection marker, must survive snapshot + restore).
+func verifHarness_C07_snapshot() { vSnapshotScenario(true) }
+
+func vSnapshotScenario(markedOnly bool) {
 	vFoldOf = make(map[*ircserver.IRCServer]*vFoldSet)
 	vStateTable, vEntryIdx, vOutDeleted = nil, nil, nil
 	n := verifCase(verifParam("entries", 3)) + 1
@@ -113,6 +120,14 @@ func verifHarness_C02_snapshot() {
 	}
 	rs := snap.(*robustSnapshot)
 	final := vStateTable[int(rs.state[0])]
+	if markedOnly {
+		for k := 0; k < n; k++ {
+			var l raft.Log
+			gone := ircstore.GetLog(vEntryIdx[k], &l) != nil
+			verifAssert(verifImplies(gone, final.slots[k]), "compacted-entries-including-marked-ones-are-folded-into-the-state")
+		}
+		return
+	}
 	verifAssert(final.base, "snapshot-state-keeps-the-older-history")
 	// (a) folded = deleted from the log copy = deleted from the output store; retained = neither
 	for k := 0; k < n; k++ {
